@@ -477,7 +477,7 @@ func TestVerifC05(t *testing.T) {
 			}
 			s0.Phys.FailAt("call", 1<<30)
 			s0.Phys.SetTag("call")
-			sub0.renew(s0, 50)
+			sub0.renew(s0, 500)
 			s0.Phys.SetTag("")
 			nops := s0.Phys.TagCount("call")
 			s0.Close()
@@ -493,7 +493,7 @@ func TestVerifC05(t *testing.T) {
 				}
 				s.Phys.FailAt("call", k)
 				s.Phys.SetTag("call")
-				ok, _, _ := sub.renew(s, 50)
+				ok, _, _ := sub.renew(s, 500) // an increment that EXTENDS the lifetime (ttl 100 s, max 1000 s)
 				s.Phys.SetTag("")
 				failed := s.Phys.Failed()
 				fwhat, fkind := "not reached", "none"
